@@ -9,6 +9,7 @@ Included in this file you will find:
 
 """
 import collections
+import os
 import re
 import keyword
 
@@ -20,6 +21,20 @@ from .pyrtlexceptions import PyrtlError, PyrtlInternalError
 #   |__) |    /  \ /  ` |__/
 #   |__) |___ \__/ \__, |  \
 #
+
+# Verification hook, inert unless the environment variable PYRTL_VERIF=1 is set *and* a
+# harness installs a factory with _verif_set_iter_hook.  The factory receives the set of
+# ready wires of Block.__iter__ and returns a set-like object (__len__, pop, update) that
+# decides how ties of the topological iteration are broken.
+_verif_iter_hook = None
+
+
+def _verif_set_iter_hook(factory):
+    global _verif_iter_hook
+    if factory is not None and os.environ.get('PYRTL_VERIF') != '1':
+        raise RuntimeError('verification hooks require PYRTL_VERIF=1')
+    _verif_iter_hook = factory
+
 
 class LogicNet(collections.namedtuple('LogicNet', ['op', 'op_param', 'args', 'dests'])):
     """ The basic immutable datatype for storing a "net" in a netlist.
@@ -569,6 +584,8 @@ class Block(object):
         from .wire import Input, Const, Register
         src_dict, dest_dict = self.net_connections()
         to_clear = self.wirevector_subset((Input, Const, Register))
+        if _verif_iter_hook is not None:
+            to_clear = _verif_iter_hook(to_clear)
         cleared = set()
         remaining = self.logic.copy()
         try:
